@@ -11,6 +11,8 @@ pub const INHERENT_TRAITS: &[&str] = &["DualNum", "Signed", "Zero", "One", "Inv"
 #[derive(Clone, Debug, PartialEq, Eq, PartialOrd, Ord)]
 pub enum PartKind {
     Sc,
+    /// nested instantiation: the part is itself a dual number of the named (already extracted) type
+    Inner(String),
     /// Derivative<T,F,R,C>: textual dims
     Deriv(String, String),
 }
@@ -77,7 +79,10 @@ impl Func {
     }
 }
 
+#[derive(Clone)]
 pub struct Db {
+    /// nested units: name -> (outer generic type, inner type substituted for T)
+    pub nested: BTreeMap<String, (String, String)>,
     pub types: BTreeMap<String, TypeInfo>,
     pub funcs: Vec<Func>,
     /// default method bodies of trait DualNum
@@ -111,7 +116,7 @@ fn first_generic_arg(seg: &syn::PathSegment) -> Option<Type> {
 
 impl Db {
     pub fn build(file: &syn::File) -> Db {
-        let mut db = Db { types: BTreeMap::new(), funcs: vec![], dualnum_defaults: vec![], skipped: vec![] };
+        let mut db = Db { nested: BTreeMap::new(), types: BTreeMap::new(), funcs: vec![], dualnum_defaults: vec![], skipped: vec![] };
         db.walk(&file.items);
         // instantiate trait default methods (mul_add, powd) for every type that implements DualNum
         let tys: Vec<String> = db
@@ -294,6 +299,29 @@ impl Db {
                 });
             }
         }
+    }
+
+    /// monomorphised nesting `outer<inner, F>`: a new type `outer__inner` whose scalar parts are `inner` values (rule R1)
+    pub fn with_nested(&self, outer: &str, inner: &str) -> (Db, String) {
+        let name = format!("{outer}__{inner}");
+        let mut db = self.clone();
+        let oti = &self.types[outer];
+        let parts = oti.parts.iter().map(|(p, k)| (p.clone(), if *k == PartKind::Sc { PartKind::Inner(inner.to_string()) } else { k.clone() })).collect();
+        db.types.insert(name.clone(), TypeInfo { name: name.clone(), parts, generics: oti.generics.clone(), line: oti.line });
+        let cloned: Vec<Func> = self
+            .funcs
+            .iter()
+            .filter(|f| f.ty == outer)
+            .map(|f| {
+                let mut g = f.clone();
+                g.ty = name.clone();
+                g.mname = format!("m_{name}_{}", &f.mname[format!("m_{outer}_").len()..]);
+                g
+            })
+            .collect();
+        db.funcs.extend(cloned);
+        db.nested.insert(name.clone(), (outer.to_string(), inner.to_string()));
+        (db, name)
     }
 
     pub fn find_method(&self, ty: &str, name: &str) -> Option<&Func> {
